@@ -104,7 +104,7 @@ class Surface:
 
     def __init__(self, name, tris):
         self.tris = np.asarray(tris, float)  # (m,3,3)
-        self.key = ("surf", name)
+        self.key = ("surf", name, None)
 
     def off(self, P):
         P = np.asarray(P, float)
@@ -148,7 +148,10 @@ class Curve:
 
     def __init__(self, name, segs):
         self.segs = np.asarray(segs, float)  # (m,2,3)
-        self.key = ("curve", name)
+        zs = self.segs[:, :, 2]
+        # a curve drawn in one horizontal plane (a polyline) carries the height of that plane
+        flat = float(zs.flat[0]) if np.all(zs == zs.flat[0]) else None
+        self.key = ("curve", name, flat)
 
     def off(self, P):
         P = np.asarray(P, float)
@@ -190,7 +193,7 @@ class Prim:
 class _Solid(Prim):
     carrier = Space()
 
-    def margin_on(self, P, ckey):
+    def margin_on(self, P, ckey, half=None):
         return self.sdf(np.asarray(P, float))
 
 
@@ -289,19 +292,27 @@ class ConeBandS(_Solid):
 
 
 class _Planar(Prim):
-    def margin_on(self, P, ckey):
-        """in the shape's own plane: the 2-D margin; on any other carrier only the points that
-        lie in that plane (a polyline drawn in it) can belong to the shape."""
+    def margin_on(self, P, ckey, half=None):
+        """in the shape's own plane: the 2-D margin.  On any other carrier only what lies in
+        that plane can belong to the shape: a piece (centre P, half-extent `half`) that is flat
+        in z and at the plane's height gets the 2-D margin, a piece that straddles the plane is
+        undetermined (margin 0), everything else is outside."""
         P = np.asarray(P, float)
         if ckey == self.carrier.key:
             return self.sdf2(P[:, :2])
         if ckey[0] == "plane":
             return np.full(len(P), INF)
         z0 = self.carrier.z
-        inplane = np.abs(P[:, 2] - z0) <= 1e-9 * (1 + abs(z0))
+        tol = 1e-9 * (1 + abs(z0))
+        if len(ckey) > 2 and ckey[2] is not None:
+            # the whole carrier is horizontal: it lies in the shape's plane or misses it
+            if abs(ckey[2] - z0) <= tol:
+                return self.sdf2(P[:, :2])
+            return np.full(len(P), INF)
+        hz = np.zeros(len(P)) if half is None else np.asarray(half, float)[:, 2]
+        dz = np.abs(P[:, 2] - z0)
         out = np.full(len(P), INF)
-        if inplane.any():
-            out[inplane] = self.sdf2(P[inplane, :2])
+        out[dz <= hz + tol] = 0.0
         return out
 
 
@@ -427,7 +438,7 @@ class RectS(_Planar):
 
 
 class _Intrinsic(Prim):
-    def margin_on(self, P, ckey):
+    def margin_on(self, P, ckey, half=None):
         return np.full(len(P), -INF if ckey == self.carrier.key else INF)
 
     def aabb(self):
@@ -502,9 +513,9 @@ class Comp:
                 out.append(c)
         return out
 
-    def margin_on(self, P, ckey):
-        a = self.A.margin_on(P, ckey)
-        b = self.B.margin_on(P, ckey)
+    def margin_on(self, P, ckey, half=None):
+        a = self.A.margin_on(P, ckey, half)
+        b = self.B.margin_on(P, ckey, half)
         if self.op == "union":
             return np.minimum(a, b)
         if self.op == "intersect":
@@ -640,7 +651,7 @@ class Quadrature:
         for ki, K in enumerate(self.carriers):
             pts, half, mass = K.quad(grid, q)
             r = np.linalg.norm(half, axis=1)
-            m = shape.margin_on(pts, K.key)
+            m = shape.margin_on(pts, K.key, half)
             C.append(pts)
             H.append(half)
             M.append(mass)
@@ -667,11 +678,27 @@ class Quadrature:
         return lo, hi
 
 
-def atom_of(shape, P, r, ckey):
+def assign_carrier(carriers, C, H, tol):
+    """index of the carrier each piece (centre C, half-extent H) lies on, -1 if none.  A piece
+    lies on a plane only if it is flat in z at the plane's height (a lattice box of a surface
+    or curve that merely crosses the plane does not)."""
+    out = np.full(len(C), -1, np.int64)
+    for j, K in enumerate(carriers):
+        if isinstance(K, Plane):
+            fit = (np.abs(C[:, 2] - K.z) <= tol) & (H[:, 2] <= tol)
+        elif isinstance(K, Space):
+            fit = np.ones(len(C), bool)
+        else:
+            fit = K.off(C) <= tol
+        out[fit & (out < 0)] = j
+    return out
+
+
+def atom_of(shape, P, r, ckey, half=None):
     """For a two-operand composition: (a, b) with a, b in {1 in, 0 out, -1 undetermined}."""
     out = []
     for X in shape.operands:
-        m = X.margin_on(P, ckey)
+        m = X.margin_on(P, ckey, half)
         rr = r + X.band
         out.append(np.where(m < -rr, 1, np.where(m > rr, 0, -1)))
     return out
